@@ -20,12 +20,13 @@ package midicat
 
 // decimal / hexadecimal field conversion (fmt.Sscanf): assumed, not proved
 //@ func convertDelta
-//@ trusted
 //@ ensures err != nil ==> deltams == -1
+//@ ensures [P:C19] forall v int32 :: decCanon(seq(b), v) ==> (err == nil && deltams == v)
 
 //@ func convert
-//@ trusted
 //@ ensures err != nil ==> out == nil
+//@ ensures [P:C19] hexCanon(seq(b)) ==> (err == nil && len(out) == len(b) / 2)
+//@ ensures [P:C19] hexCanon(seq(b)) ==> forall i int :: (0 <= i && i < len(b) / 2) ==> out[i] == hexv(b[2 * i]) * 16 + hexv(b[2 * i + 1])
 
 // Read: exactly one line is consumed (self-framing), whatever it contains; the bytes before the first space are the
 // time stamp field, the bytes after it (if the line has no second space) are the message field, unchanged
@@ -53,4 +54,7 @@ package midicat
 //@ requires rd != nil && 0 <= rd.spos && rd.spos <= rd.sn
 //@ modifies rd.spos, rd.sfault
 //@ ensures [P:C19] err == nil ==> (rd.spos > old(rd.spos) && rd.sdata[rd.spos - 1] == 0x0A && forall i int :: old(rd.spos) <= i && i < rd.spos - 1 ==> rd.sdata[i] != 0x0A)
+// the message: for a line with exactly one space whose second field is what %X prints (upper-case hex pairs), the
+// bytes those pairs denote, in order
+//@ ensures [P:C19] err == nil ==> forall s int :: (old(rd.spos) <= s && s < rd.spos - 1 && rd.sdata[s] == 0x20 && (forall i int :: (old(rd.spos) <= i && i < rd.spos - 1 && i != s) ==> rd.sdata[i] != 0x20) && rd.spos - 2 - s >= 2 && (rd.spos - 2 - s) % 2 == 0 && (forall i int :: (s < i && i < rd.spos - 1) ==> isHexU(rd.sdata[i]))) ==> (len(out) == (rd.spos - 2 - s) / 2 && forall k int :: (0 <= k && k < (rd.spos - 2 - s) / 2) ==> out[k] == hexv(rd.sdata[s + 1 + 2 * k]) * 16 + hexv(rd.sdata[s + 2 + 2 * k]))
 //@ ensures [H] old(rd.spos) <= rd.spos && rd.spos <= rd.sn
